@@ -187,8 +187,97 @@ def run(tier, seed):
                         '_open_new_file_, the counter skeleton of the window',
                         'not decided: the window semantics as a whole (start/max across file boundaries, empty files, '
                         'interleavings of has_next_event/load_next_event): a state machine over run-time file contents']
+    _file_index(rep, prog)
     return rep
 
 
 def _in_loop(F, node):
     return node.id in F.g.reachable_from_succ(node.id)
+
+
+def _file_index(rep, prog):
+    """the file index the reader records is the index of the file it has just opened"""
+    from ..rules import symflow
+    from ..rules.symalg import Poly
+    rep.rule('READER.file-index', 'in _open_new_file_, every update of current_file_index (other than the reset to -1) stores the very index '
+             'used to subscript event_files for the file just opened: the roll-over at end of file then moves to the *next* file')
+    fn = prog.fn('bxdecay0::event_reader::_open_new_file_')
+    F = cppflow.Flow(fn)
+    g = F.g
+
+    def subs(n):
+        out = []
+        for e in F.exprs(n):
+            for x in ir.subexprs(e):
+                if x[0] == 'op' and x[1] == '[]' and len(x) == 4 and 'event_files' in ir.fmt(x[2]):
+                    out.append(x[3])
+        return out
+    S = [(n, subs(n)[0]) for n in g.nodes if n.stmt is not None and subs(n)]
+    if not S:
+        # the file name may be bound by reference (no statement of its own): take the subscript from the AST and anchor it at the
+        # first statement at or after its line
+        for x in astu.walk(fn['body']):
+            if x['k'] == 'OpCall' and x.get('op') == '[]' and 'event_files' in astu.src(x['args'][0]):
+                i = astu.strip_casts(x['args'][1])
+                later = sorted((n for n in g.nodes if n.stmt is not None and n.line >= x.get('l', 0)), key=lambda n: (n.line, n.id))
+                if i['k'] == 'Ref' and later:
+                    S.append((later[0], ('var', i['name'])))
+    U = [n for n in F.nodes(kind='assign') if n.stmt[1][0] == 'fld' and n.stmt[1][2] == 'current_file_index' and
+         not (n.stmt[2][0] == 'num' and n.stmt[2][1] == -1)]
+    if not S or not U:
+        raise AnalysisBroken('_open_new_file_: file subscript / index update not found (%d/%d)' % (len(S), len(U)))
+    R = symflow.Resolve(F)
+    cfi = None
+
+    def sym(e):
+        if e[0] == 'fld' and e[2] == 'current_file_index':
+            return Poly.sym('cfi')
+        if e[0] == 'var':
+            return Poly.sym('var:' + e[1])
+        raise AnalysisBroken('unexpected term %s' % ir.fmt(e))
+    for u in U:
+        doms = [(n, x) for n, x in S if F.dominates(n, u)] or [(n, x) for n, x in S if u.id in F.reach(n.id)]
+        if not doms:
+            rep.add('READER.file-index', 'update@%d' % u.line, where(fn, u.line), 'the index update follows the opening of a file', False)
+            continue
+        n, x = doms[-1]
+        ok, why = False, None
+
+        def avoiding(start, avoid):
+            seen, st = set(), list(g.nodes[start].succ)
+            while st:
+                i = st.pop()
+                if i in seen or i == avoid:
+                    continue
+                seen.add(i)
+                st.extend(g.nodes[i].succ)
+            return seen
+        try:
+            if u.stmt[2] == x:
+                ok = True            # the subscript variable itself is recorded
+            else:
+                opened = symflow.poly(R.subst(x, n), sym)
+                stored = symflow.poly(R.subst(u.stmt[2], u), sym)
+                ok = opened == stored
+                why = None if ok else 'opened event_files[%r], recorded %r' % (opened, stored)
+            # the subscript variable must not change between the (last) opening and the update
+            if ok and x[0] == 'var':
+                between = avoiding(n.id, n.id)
+                redefs = [m for m in F.nodes(kind='assign') if m.stmt[1] == x and m.id in between and u.id in F.reach(m.id)]
+                # the step of a counted loop over the files (x := x + 1 followed by the loop test on x) precedes a new opening or the
+                # exhaustion exit: it does not separate an opening from its update
+                redefs = [m for m in redefs if not (m.stmt[2] == ('op', '+', x, ir.num(1, 'i')) and len(m.succ) == 1 and
+                                                    g.nodes[m.succ[0]].kind == 'branch' and x in set(ir.subexprs(g.nodes[m.succ[0]].stmt[1])))]
+                if redefs:
+                    ok, why = False, '%s is modified (line %d) between the opening and the update' % (x[1], redefs[0].line)
+            # nor may the recorded index itself
+            if ok:
+                between = avoiding(n.id, n.id)
+                redefs = [m for m in F.nodes(kind='assign') if m is not u and m.stmt[1][0] == 'fld' and m.stmt[1][2] == 'current_file_index'
+                          and m.id in between and u.id in F.reach(m.id) and not F.dominates(u, m)]
+                if redefs:
+                    ok, why = False, 'current_file_index is modified (line %d) between the opening and the update' % redefs[0].line
+        except AnalysisBroken as ex:
+            why = str(ex)
+        rep.add('READER.file-index', 'update@%s' % ir.fmt(u.stmt[2])[:40], where(fn, u.line), 'current_file_index := %s records the index of the '
+                'file opened at line %d' % (ir.fmt(u.stmt[2])[:60], n.line), ok, why)
